@@ -190,7 +190,7 @@ add("C32", "c_files",
     assumptions=["source content is a pure function of the offset"])
 add("C33", "c_files",
     [T("TestC33", 8000, 100000, env=BUBBLE), T("TestC33Parallel", 4000, 50000, env={"GOMAXPROCS": "4"}), T("TestC34HashFlood", 10, 100, env={"GOMAXPROCS": "4"}, shards=4)],
-    rule="file sizes around k*part, exact multiples, uniform, tiny (<= 8 MiB); part sizes 4 KiB..1 MiB; 1..8 threads; Stream/Parallel; honest master with per-(chunk,attempt) faults FLOOD_WAIT, FLOOD_PREMIUM_WAIT, rpc Timeout, context.DeadlineExceeded, net timeouts; latencies 0/5/50/3000 ms so replies complete out of order. non-trivial = size % part == 0 or (Parallel, threads>=2, >=1 retry); distinct by parameters",
+    rule="file sizes around k*part, exact multiples, uniform, tiny (<= 8 MiB); part sizes 4 KiB..1 MiB; 1..8 threads; Stream/Parallel; honest master with per-(chunk,attempt) faults FLOOD_WAIT, FLOOD_PREMIUM_WAIT, rpc Timeout, context.DeadlineExceeded, net timeouts; latencies 0/5/50/3000 ms so replies complete out of order; in a third of the cases the Downloader (and its buffer pool) was used before for another file, that download completed or cancelled at a drawn request. non-trivial = size % part == 0 or (Parallel, threads>=2, >=1 retry); distinct by parameters",
     technique="model-based PBT on virtual time (rapid + synctest): written bytes vs. the model file",
     text="Stream: exact byte sequence; Parallel: every WriteAt matches the file, spans tile [0,size) without gap or overlap; returned type equals served type; requests stay on the part grid.",
     note="")
